@@ -1091,6 +1091,26 @@ impl ProgGen {
         text
     }
 
+    /// the values of a `const` declaration of `n` names
+    fn const_values(&mut self, e: u32, vararg: bool, n: usize) {
+        let count = if n > 1 && self.rng.chance(1, 2) { 1 + self.rng.below(n - 1) } else { n };
+        for i in 0..count {
+            if i > 0 {
+                self.t(",");
+            }
+            if count < n && i + 1 == count {
+                // fewer values than names: the last one is multi-valued
+                if vararg && self.rng.chance(1, 2) {
+                    self.t("...");
+                } else {
+                    self.prefix(e, vararg, 1);
+                }
+            } else {
+                self.expr(e, vararg);
+            }
+        }
+    }
+
     /// Two statements in a row, without `;` between them: the first ends with an expression that
     /// is not a prefix expression (a literal — `1e999` among them —, a table, a function, a
     /// cast in typed mode), the second STARTS WITH A PARENTHESE. This is the only shape in which
@@ -1100,14 +1120,97 @@ impl ProgGen {
         if !self.in_temp {
             self.stmt_starts.push(self.toks.len());
         }
-        match self.rng.below(4) {
+        // the first statement is drawn from every statement kind `ends_with_prefix` decides about
+        let kind = self.rng.below(9);
+        match kind {
             0 => {
-                self.t("local");
+                let keyword = if !self.markers && self.rng.chance(1, 3) { "const" } else { "local" };
+                self.t(keyword);
                 self.local_name();
                 self.opt_type();
                 self.t("=");
             }
-            1 => {
+            4 | 5 => {
+                // a declaration without values: it ends with its last name (or that name's type)
+                self.t("local");
+                let n = 1 + self.rng.below(3);
+                for i in 0..n {
+                    if i > 0 {
+                        self.t(",");
+                    }
+                    self.local_name();
+                    if i + 1 < n || kind == 5 {
+                        self.opt_type();
+                    }
+                }
+            }
+            6 | 7 => {
+                // statements that end with a keyword
+                let d = depth.saturating_sub(1);
+                match self.rng.below(7) {
+                    0 => {
+                        self.t("do");
+                        self.block(d, false, vararg);
+                        self.t("end");
+                    }
+                    1 => {
+                        self.t("local");
+                        self.t("function");
+                        self.local_name();
+                        self.function_body(d);
+                    }
+                    2 => {
+                        self.t("function");
+                        self.name();
+                        self.function_body(d);
+                    }
+                    3 => {
+                        self.t("while");
+                        self.expr(e, vararg);
+                        self.t("do");
+                        self.block(d, true, vararg);
+                        self.t("end");
+                    }
+                    4 => {
+                        self.t("if");
+                        self.expr(e, vararg);
+                        self.t("then");
+                        self.block(d, false, vararg);
+                        self.t("end");
+                    }
+                    5 => {
+                        self.t("for");
+                        self.local_name();
+                        self.t("in");
+                        self.prefix(e, vararg, 1);
+                        self.t("do");
+                        self.block(d, true, vararg);
+                        self.t("end");
+                    }
+                    _ => {
+                        self.t("repeat");
+                        self.block(d, true, vararg);
+                        self.t("until");
+                        self.number();
+                    }
+                }
+            }
+            8 if !self.markers => {
+                // const with fewer values than names: ends with `...` or a call
+                self.t("const");
+                self.local_name();
+                self.t(",");
+                self.local_name();
+                self.t("=");
+                if vararg {
+                    self.t("...");
+                } else {
+                    self.number();
+                    self.t(",");
+                    self.number();
+                }
+            }
+            1 | 8 => {
                 self.prefix(e, vararg, 2);
                 self.t("=");
             }
@@ -1127,8 +1230,11 @@ impl ProgGen {
             }
         }
         // the ender: never a prefix expression
-        let cast = self.typed && self.rng.chance(1, 2);
-        if cast {
+        let needs_ender = matches!(kind, 0 | 1 | 2 | 3) || (kind == 8 && self.markers);
+        let cast = needs_ender && self.typed && self.rng.chance(1, 2);
+        if !needs_ender {
+            // the first statement is complete
+        } else if cast {
             match self.rng.below(4) {
                 0 => self.name(),
                 1 => self.prefix(e, vararg, 0),
@@ -1259,7 +1365,10 @@ impl ProgGen {
         let e = depth.min(2);
         match self.rng.below(if depth == 0 { 4 } else { 14 }) {
             0 => {
-                self.t("local");
+                // `const` declarations always have values: as many as names, or fewer when the
+                // last one is `...` or a call (which fill the remaining names)
+                let constant = !self.markers && self.rng.chance(1, 4);
+                self.t(if constant { "const" } else { "local" });
                 let n = 1 + self.rng.below(3);
                 for i in 0..n {
                     if i > 0 {
@@ -1268,7 +1377,10 @@ impl ProgGen {
                     self.local_name();
                     self.opt_type();
                 }
-                if self.rng.chance(3, 4) {
+                if constant {
+                    self.t("=");
+                    self.const_values(e, vararg, n);
+                } else if self.rng.chance(3, 4) {
                     self.t("=");
                     self.expr_list(e, vararg, 1, 3);
                 }
@@ -2078,6 +2190,9 @@ fn replay_known_findings(report: &mut Report) {
 pub const FIXED_SOURCES: &[&str] = &[
     "local m = `{a}\\z\n    {b}` .. `\\z  {a}` .. `{a}\\z\t` .. `\\z ` .. `{a}\\z  {b}\\z\r\n{c}x\\z  `",
     "local i = `{ a\n   }` .. `{\n  b --[[c]]\n\t}x{ --[[d]] c }` .. `{ {1} }`",
+    "return function(...) const a, b = ... return a end",
+    "const a, b = f()\n(g)()\nconst c = 1\nconst d, e = 1, 2\n(h)()\nlocal function v(...) const x, y, z = 1, ... return x end",
+    "local a\n(f)()\nlocal a, b -- c\n(a or b).x = 1\ndo end\n(f)()\nlocal function g() end\n(g)()\nwhile x do end\n(f):m()",
     "local a = 1e999\n(f)()\nlocal b = 'x'\n(g).h = 1\nlocal c = {}\n(c):m()\nx = function() end\n(x)()\ny = nil\n(y or z)()",
     "",
     "\n",
@@ -2111,6 +2226,7 @@ pub const FIXED_SOURCES: &[&str] = &[
 
 const TYPED_SOURCES: &[&str] = &[
     "obj:m<<T>>()\nlocal r = obj :\n  m << number , string >> ( 1 )\nreturn f<<T>>(2)",
+    "local a: number\n(f)()\nlocal b, c: T?\n(g)()\nconst k: number = 1\n(h)()",
     "local object = value :: Object\n(object.run)(object)\nx = a.b :: T\n(x :: any)()\ny += f() :: number\n(y)()",
     "local a: number = 1\nlocal b : string? = nil\nreturn a :: any",
     "type T = { x: number, y: string } | nil\nexport type U<V> = (V) -> V\nlocal function f<T>(a: T, ...: number): T return a end",
